@@ -98,6 +98,22 @@ def cases(draw, dag=False):
                      ["eval", ["Qd"], "dq", [], None, "()"], ["set_ref", ["Qr"], "rq", ["v", 500], None],
                      ["eval", ["Qd"], "dq", [], None, "()"]])
     if not dag and draw(st.integers(0, 2)) == 0:
+        # a cells that reads two references by attribute path, called by another cells; each reference changes in turn
+        ra = ["attr", ["attr", ["name", "_model"], "Qg"], "ra"]
+        rb = ["attr", ["attr", ["name", "_model"], "Qg"], "rb"]
+        extra = [["new_space", [], "Qg", None, None],
+                 ["set_ref", ["Qg"], "ra", ["v", 2], None], ["set_ref", ["Qg"], "rb", ["v", 5], None],
+                 ["new_cells", ["Qg"], mk("ug", [["x", None]], ["bin", "+", ["bin", "*", ra, ["var", "x"]], rb])],
+                 ["new_cells", ["Qg"], mk("cg", [], ["call", ["name", "ug"], [["lit", 1]], "()"])]]
+        for op in extra:
+            ops.append(op)
+            gen.apply_ref(G, op)
+        forced.append(["Qg", "ug"])
+        first, second = draw(st.permutations(["ra", "rb"]))
+        scen.append([["eval", ["Qg"], "cg", [], None, "()"], ["set_ref", ["Qg"], first, ["v", 30], None],
+                     ["eval", ["Qg"], "cg", [], None, "()"], ["set_ref", ["Qg"], second, ["v", 400], None],
+                     ["eval", ["Qg"], "cg", [], None, "()"]])
+    if not dag and draw(st.integers(0, 2)) == 0:
         # a cells whose formula answers None for some arguments (None is not allowed): the error is the same
         # whether the cells keeps its values or not, also for a caller
         extra = [["new_space", [], "Qn", None, None],
